@@ -6,6 +6,7 @@ import (
 	"encoding/json"
 	"errors"
 	"fmt"
+	"os"
 	"sort"
 	"strings"
 	"sync"
@@ -246,17 +247,22 @@ func c09Scenario(c *fw.Ctx, sp c09Spec) schedScenario {
 					}
 					// the initial model state is what the store shows now (limits may already
 					// have evicted)
-					for _, mb := range c09Boxes(sp) {
-						ms, _ := sh.Store.GetMessages(mb)
+					// (only mailboxes the initialisation delivered to are read: reading another one
+					// would create it in the mem store, and some scenarios need it to be fresh)
+					seenBox := map[string]bool{}
+					for _, op := range sp.Init {
+						if seenBox[op.MB] {
+							continue
+						}
+						seenBox[op.MB] = true
+						ms, _ := sh.Store.GetMessages(op.MB)
 						for _, m := range ms {
-							initial.boxes[mb] = append(initial.boxes[mb], m.ID())
+							initial.boxes[op.MB] = append(initial.boxes[op.MB], m.ID())
 						}
 					}
-					for k, id := range initIDs {
-						_ = k
-						for _, mb := range c09Boxes(sp) {
-							initial.ever[mb+":"+id] = true
-						}
+					// ids already issued (per mailbox) can never be issued again
+					for i, op := range sp.Init {
+						initial.ever[op.MB+":"+initIDs[fmt.Sprintf("init%d", i+1)]] = true
 					}
 				}
 				var ths []vsched.Thread
@@ -383,8 +389,12 @@ func abstractIDs(ids string, hist []porcupine.Operation) string {
 }
 
 func c09Run(c *fw.Ctx) {
-	for _, sp := range c09Specs() {
-		exploreSched(c, c09Scenario(c, sp))
+	specs := c09Specs()
+	for i, sp := range specs {
+		if only := os.Getenv("VERIF_ONLY_SCENARIO"); only != "" && !strings.HasPrefix(sp.ID, only) {
+			continue
+		}
+		c.Share(len(specs)-i, func() { exploreSched(c, c09Scenario(c, sp)) })
 	}
 }
 
